@@ -470,6 +470,11 @@ void check_after_deliveries(Case &C, const std::vector<Delivery> &ds, const std:
             std::string what = vh::fmt("e%d (loop %d/%s, %s, signals", e.id, e.loop, C.loops[e.loop]->engine.c_str(), flname[e.flavour]);
             for (int s : e.sigs) what += vh::fmt(" %s", g_signame[s]);
             what += vh::fmt(") got %d callback(s) for %s(%d) after %zu delivery(ies); the model expects %d", delta, g_signame[si], g_signo[si], ds.size(), want);
+            {
+                std::set<int> sub_loops;
+                for (size_t j = 0; j < C.evs.size(); ++j) if (was_enabled_for[j][si]) sub_loops.insert(C.evs[j]->loop);
+                what += vh::fmt("; %zu loop(s) had an enabled subscriber for that signal when it was raised", sub_loops.size());
+            }
             const char *ctx = !C.reaction_may_overlap_handler ? "" : C.reaction_user_driven ? "/callback-changes-subscription-while-handler-runs"
                                                                                              : "/notified-loop-unsubscribes-while-handler-runs";
             if (C.reaction_may_overlap_handler)
